@@ -30,6 +30,9 @@ pub enum Fault {
   /// a whole field element (x or a y) or the whole of C / D / J overwritten with a special value:
   /// 0 = all zero, 1 = the integer one, 2 = p-1 (elements) / all 0xFF, 3 = all 0xFF
   Special { pos: u16, field: u16, val: u8 },
+  /// two bytes of ONE field altered so that simple checksums cancel: kind 0 = the same XOR mask on
+  /// both, 1 = +d on one and -d on the other, 2 = the two bytes swapped
+  Pair { pos: u16, field: u16, off1: u16, off2: u16, d: u8, kind: u8 },
 }
 
 #[derive(Clone, Debug, Serialize, Deserialize)]
@@ -56,6 +59,8 @@ fn fault(all_weight: u32) -> BoxedStrategy<Fault> {
     all_weight => prop_oneof![2 => Just(0u16), 3 => any::<u16>()].prop_map(|pos| Fault::All { pos }),
     3 => (prop_oneof![2 => Just(0u16), 3 => any::<u16>()], any::<u16>(), any::<u16>()).prop_map(|(pos, from, field)| Fault::Transplant { pos, from, field }),
     4 => (prop_oneof![3 => Just(0u16), 2 => any::<u16>()], any::<u16>(), 0u8..4).prop_map(|(pos, field, val)| Fault::Special { pos, field, val }),
+    5 => (prop_oneof![3 => Just(0u16), 2 => any::<u16>()], any::<u16>(), any::<u16>(), any::<u16>(), 1u8..=255, 0u8..3)
+      .prop_map(|(pos, field, off1, off2, d, kind)| Fault::Pair { pos, field, off1, off2, d, kind }),
   ]
   .boxed()
 }
@@ -252,6 +257,32 @@ fn oracle(c: &Case, st: &mut Stats) -> Result<(), String> {
         enc[p][o] = base[o];
       }
       st.class(if p == 0 { "all-faults-on-first-share" } else { "all-faults-on-later-share" });
+    }
+    Fault::Pair { pos, field, off1, off2, d, kind } => {
+      let p = idx(*pos, coll.len());
+      let mut enc = honest.clone();
+      if let Some((name, r)) = field_of(&enc[p], *field) {
+        if r.len() >= 2 {
+          let a = r.start + idx(*off1, r.len());
+          let mut b2 = r.start + idx(*off2, r.len());
+          if a == b2 {
+            b2 = r.start + (b2 - r.start + 1) % r.len();
+          }
+          match kind % 3 {
+            0 => {
+              enc[p][a] ^= *d;
+              enc[p][b2] ^= *d;
+            }
+            1 => {
+              enc[p][a] = enc[p][a].wrapping_add(*d);
+              enc[p][b2] = enc[p][b2].wrapping_sub(*d);
+            }
+            _ => enc[p].swap(a, b2),
+          }
+          st.class(&format!("pair-fault-field={name}"));
+          judge(&enc, Some(p), &format!("two bytes ({a}, {b2}) of field {name} of share {p} altered, kind {}", kind % 3), st)?;
+        }
+      }
     }
     Fault::Special { pos, field, val } => {
       let p = idx(*pos, coll.len());
